@@ -4,6 +4,7 @@ from rules import shell as S
 from rules import limits as LM
 from rules import payload as O
 from rules import chk as K
+from rules import misc as M
 
 
 def run(ctx):
@@ -19,6 +20,7 @@ def run(ctx):
     O.flw7_catalogue_lookups_on_query_path(ctx)
     K.chk7_scalar_implementations(ctx)
     L.cnd2_every_wakeup_condition_notifies(ctx)
+    M.ord13_top_n_limit_zero(ctx)
     return ctx.finish(
         'Static analysis of compiler MIR: deadlock-freedom clauses (acyclic lock-order graph over '
         'all lock identities, no guard across blocking calls except tabled sites, paired condvar '
